@@ -11,6 +11,9 @@
 #include "K_pds_set_bin_value.c"
 #include "K_pds_set_viewgram.c"
 #include "K_pds_set_sinogram.c"
+#include "K_pds_get_bin_value.c"
+#include "K_pds_get_viewgram.c"
+#include "K_pds_get_sinogram.c"
 int K_pds_set_segment_by_view(const struct PD* self, const int v_segment_num, const int v_timing_pos_num);
 #include "K_pds_set_segment_by_sinogram.c"
 #include "K_pds_set_segment_by_view.c"
@@ -43,7 +46,7 @@ void h_K_pdm_get_sinogram(void) { struct PD* s; ghosts_path(); K_pdm_get_sinogra
 static void ghosts_stream(void)
 {
   ghosts_path();
-  g_foff = nondet_long(); g_seek = nondet_long(); g_dirty = 0; g_fwrites = 0; g_stream_null = nondet_int(); g_stream_bad = nondet_int(); g_nonfloat = nondet_int();
+  g_foff = nondet_long(); g_seek = nondet_long(); g_dirty = 0; g_wrong_scale = 0; g_fwrites = 0; g_stream_null = nondet_int(); g_stream_bad = nondet_int(); g_nonfloat = nondet_int();
   g_scale_factor = nondet_float(); g_blk_start = nondet_long(); g_blk_elems = nondet_long();
 }
 void h_K_pds_set_bin_value(void) { struct PD* s; struct Bin* b; ghosts_stream(); K_pds_set_bin_value(s, b); }
@@ -51,6 +54,10 @@ void h_K_pds_set_viewgram(void) { struct PD* s; ghosts_stream(); K_pds_set_viewg
 void h_K_pds_set_sinogram(void) { struct PD* s; ghosts_stream(); K_pds_set_sinogram(s, nondet_int(), nondet_int(), nondet_int()); }
 void h_K_pds_set_segment_by_sinogram(void) { struct PD* s; ghosts_stream(); K_pds_set_segment_by_sinogram(s, nondet_int(), nondet_int()); }
 void h_K_pds_set_segment_by_view(void) { struct PD* s; ghosts_stream(); K_pds_set_segment_by_view(s, nondet_int(), nondet_int()); }
+static void ghosts_read(void) { ghosts_stream(); g_reads = 0; g_mult = 0; g_mult_bad = 0; g_unscaled = 0; g_read_off = nondet_long(); }
+void h_K_pds_get_bin_value(void) { struct PD* s; struct Bin* b; ghosts_read(); K_pds_get_bin_value(s, b); }
+void h_K_pds_get_viewgram(void) { struct PD* s; ghosts_read(); K_pds_get_viewgram(s, nondet_int(), nondet_int(), nondet_int()); }
+void h_K_pds_get_sinogram(void) { struct PD* s; ghosts_read(); K_pds_get_sinogram(s, nondet_int(), nondet_int(), nondet_int()); }
 void h_K_fss_reorder(void)
 {
   g_r = nondet_int(); g_zero = nondet_int(); g_rloc = nondet_int(); g_fss_min_seg = nondet_int(); g_fss_max_seg = nondet_int();
